@@ -23,27 +23,30 @@ type Harness struct {
 	Thorough [][]int64 // argument tuples for the thorough tier (nil: same as Quick)
 	Covers   []string  // labels that must be reached on some path (vacuity guard)
 	// how non-ok outcomes are classified
-	StepLimitIsViolation bool    // the harness asserts termination within MaxSteps
-	ExitIsViolation      bool    // os.Exit reaching the top is a violation
-	MaxSteps             int64   // per path (0: default)
+	StepLimitIsViolation bool     // the harness asserts termination within MaxSteps
+	ExitIsViolation      bool     // os.Exit reaching the top is a violation
+	MaxSteps             int64    // per path (0: default)
 	AllowInconclusive    []string // substrings of inconclusive reasons that are tolerated (stated in evidence)
 	Note                 string
 }
 
 // Prop is the specification of one property's check.
 type Prop struct {
-	ID          string
-	Dir         string   // module directory that is loaded ("/repo" unless generated code)
-	HarnessDirs []string // under /verif/harness
-	Pkg         string   // import path of the harness package
-	ExtraPkgs   []string // further packages to load
-	Harnesses   []Harness
-	Diff        []string // func() string functions compared natively vs engine
-	Functions   []string // functions encoded (for evidence)
-	Bounds      string
-	Assumptions []string
-	Prepare     func(r *runner) error // e.g. code generation into a scratch module
-	QuickBudget time.Duration
+	ID             string
+	Dir            string   // module directory that is loaded ("/repo" unless generated code)
+	HarnessDirs    []string // under /verif/harness
+	Pkg            string   // import path of the harness package
+	ExtraPkgs      []string // further packages to load
+	Harnesses      []Harness
+	Diff           []string // func() string functions compared natively vs engine
+	Functions      []string // functions encoded (for evidence)
+	Bounds         string
+	Assumptions    []string
+	Prepare        func(r *runner) error // e.g. code generation into a scratch module
+	NoOverlay      bool                  // harness files are real files of a scratch module
+	Variants       []*Prop               // sub-checks (e.g. generator configurations) run one after the other; results are merged
+	Label          string                // variant label
+	QuickBudget    time.Duration
 	ThoroughBudget time.Duration
 }
 
@@ -59,17 +62,17 @@ type runner struct {
 	keep    bool
 	verbose bool
 
-	dir      string
-	overlay  map[string][]byte
-	ovFiles  map[string]string // virtual path -> real path (for go test -overlay)
-	scratch  string
-	prog     *gosym.Program
-	pkgName  string
-	testBin  string
-	known    map[string]string // id -> what (open findings)
-	seed     int64
-	start    time.Time
-	env      []string
+	dir       string
+	overlay   map[string][]byte
+	ovFiles   map[string]string // virtual path -> real path (for go test -overlay)
+	scratch   string
+	prog      *gosym.Program
+	pkgName   string
+	testBin   string
+	known     map[string]string // id -> what (open findings)
+	seed      int64
+	start     time.Time
+	env       []string
 	generated map[string]string
 }
 
@@ -111,10 +114,124 @@ func (r *runner) run() int {
 		defer os.RemoveAll(r.scratch)
 	}
 	ev := &evidence{PropertyID: spec.ID, Tier: r.tier, Seed: r.seed, Level: "model_checking", Coverage: map[string]any{}, Assumptions: spec.Assumptions}
-	code := r.run1(ev)
+	var code int
+	if len(spec.Variants) == 0 {
+		code = r.run1(ev)
+	} else {
+		code = r.runVariants(ev)
+	}
 	ev.WallS = time.Since(r.start).Seconds()
 	r.writeEvidence(ev)
 	return code
+}
+
+// runVariants runs every variant with its own scratch directory and merges the evidence.
+func (r *runner) runVariants(ev *evidence) int {
+	spec := r.spec
+	cov := ev.Coverage
+	code := 0
+	var states, transitions, steps, validated int64
+	var solverS float64
+	var reports []any
+	var samples []any
+	inconclusive := map[string]any{}
+	var labels []string
+	for _, v := range spec.Variants {
+		sub := *v
+		sub.ID = spec.ID
+		if sub.Functions == nil {
+			sub.Functions = spec.Functions
+		}
+		if sub.Bounds == "" {
+			sub.Bounds = spec.Bounds
+		}
+		r2 := &runner{spec: &sub, tier: r.tier, only: r.only, workers: r.workers, keep: r.keep, verbose: r.verbose, seed: r.seed, start: r.start, env: r.env}
+		r2.dir = sub.Dir
+		if r2.dir == "" {
+			r2.dir = "/repo"
+		}
+		var err error
+		r2.scratch, err = os.MkdirTemp(r.scratch, "v-")
+		if err != nil {
+			fmt.Println("INCONCLUSIVE:", err)
+			return 2
+		}
+		ev2 := &evidence{Coverage: map[string]any{}}
+		r.logf("variant %s", v.Label)
+		c := r2.run1(ev2)
+		if !r.keep {
+			os.RemoveAll(r2.scratch)
+		}
+		if c > code && !(code == 1 && c == 2) {
+			code = c
+		}
+		if c == 1 {
+			code = 1
+		}
+		labels = append(labels, v.Label)
+		c2 := ev2.Coverage
+		states += toInt(c2["states"])
+		transitions += toInt(c2["transitions"])
+		steps += toInt(c2["ssa_steps"])
+		validated += toInt(c2["traces_validated_against_impl"])
+		if f, ok := c2["solver_time_s"].(float64); ok {
+			solverS += f
+		}
+		if hs, ok := c2["harnesses"].([]harnessReport); ok {
+			for _, h := range hs {
+				h.Harness = "[" + v.Label + "] " + h.Harness
+				reports = append(reports, h)
+			}
+		}
+		if ss, ok := c2["samples"].([]any); ok && len(samples) < 8 {
+			samples = append(samples, ss...)
+		}
+		if m, ok := c2["inconclusive"].(map[string]int64); ok {
+			for k, n := range m {
+				inconclusive["["+v.Label+"] "+k] = n
+			}
+		}
+		if x, ok := c2["explanation"].(string); ok && c == 2 {
+			inconclusive["["+v.Label+"] "+x] = 1
+		}
+		ev.Violations += ev2.Violations
+		if code == 1 && ev.Violations >= 3 {
+			break
+		}
+	}
+	cov["functions_encoded"] = spec.Functions
+	cov["bounds"] = spec.Bounds
+	cov["technique"] = "symbolic execution of go/ssa built from the current /repo tree (gosym), path conditions and assertions discharged by an SMT solver (bit-vector queries over one incremental z3 5.1 pipe per worker); counterexamples replayed natively"
+	cov["variants"] = labels
+	cov["states"] = states
+	cov["transitions"] = transitions
+	cov["ssa_steps"] = steps
+	cov["traces_validated_against_impl"] = validated
+	cov["solver_time_s"] = solverS
+	cov["harnesses"] = reports
+	if len(samples) == 0 {
+		samples = append(samples, "no symbolic path sample recorded")
+	}
+	cov["samples"] = samples
+	cov["inconclusive"] = inconclusive
+	cov["exhaustive"] = false
+	cov["explanation"] = "states = feasible paths explored to completion within the stated bounds, summed over the variants; transitions = SMT queries discharged"
+	if code == 0 {
+		fmt.Printf("OK property=%s tier=%s variants=%d paths=%d queries=%d validated=%d wall=%.0fs\n", spec.ID, r.tier, len(labels), states, transitions, validated, time.Since(r.start).Seconds())
+	}
+	return code
+}
+
+func toInt(v any) int64 {
+	switch x := v.(type) {
+	case int64:
+		return x
+	case int:
+		return int64(x)
+	case float64:
+		return int64(x)
+	}
+	return 0
 }
 
 func (r *runner) writeEvidence(ev *evidence) {
@@ -227,7 +344,10 @@ func (r *runner) run1(ev *evidence) int {
 			return 2
 		}
 	}
-	if err := r.buildOverlay(); err != nil {
+	if spec.NoOverlay {
+		r.overlay = map[string][]byte{}
+		r.ovFiles = map[string]string{}
+	} else if err := r.buildOverlay(); err != nil {
 		fmt.Println("INCONCLUSIVE:", err)
 		return 2
 	}
